@@ -401,10 +401,15 @@ def kw_constructible(ent):
     # payload-only selectors
     if base.startswith(("CFG-NMEA", "NAV-AOPSTATUS")) or base in ("RXM-PMREQ-S", "CFG-TP5"):
         return False
-    # MGA messages without a variant selector take their identity from the payload only
-    if ent["cls"] == b"\x13" and not any(ent["cls"] + ent["id"] in pyubx2.ubxvariants.VARIANTS[m] for m in (ent["mode"],)):
-        return False
+    # MGA messages without a variant selector take their identity from the payload only: keyword construction is then
+    # either refused (not constructible: skipped by the callers, see `kw_maybe`) or must still encode what was supplied
     return True
+
+
+def kw_maybe(ent):
+    """keyword construction of this definition may legitimately be refused (no selector registered for its class/id)"""
+    return ent["cls"] == b"\x13" and ent.get("pin") is not None and not any(
+        ent["cls"] + ent["id"] in pyubx2.ubxvariants.VARIANTS[m] for m in (ent["mode"],))
 
 
 def selector_kwargs(ent, lay):
@@ -472,7 +477,7 @@ def check_C03(ctx):
         nm = f"{defs.MODENAME[ent['mode']]}:{ent['name']}"
         res.distinct((kind, nm, bf))
         if not a.startswith("ok "):
-            if kind == "zero-single":
+            if kind == "zero-single" or (kw_maybe(ent) and a == "err UBXMessageError"):
                 continue    # a lone keyword may legitimately not select this variant / be refused; only silent loss counts
             # the parser's own report is refused by the constructor
             key = classify_c03_refusal(ent, lay, bf, kw, a)
@@ -2653,7 +2658,7 @@ def nominal_roundtrip(ent, bf):
         if p and not gen.is_cfgval(ent):
             # the definition actually selected must be this one: same attribute names as the zero layout
             pass
-        if kw_constructible(ent) and p:
+        if kw_constructible(ent) and not kw_maybe(ent) and p:
             kw = {}
             pin = ent.get("pin")
             for dk in ("type", "version"):
@@ -2726,6 +2731,20 @@ def check_C16(ctx):
         k, (kid, ty) = cfg[i]
         if a != f"{k} {kid} {canon.tyshort(ty)}":
             res.diffs.append(dict(op=f"dumpcfg {i}", py=f"{k} {kid} {canon.tyshort(ty)}", model=a))
+    # the variant table: an MGA selector registered for (mode, class/id) looks the message up under class/id + type byte
+    # in that mode's table — an entry for which no such definition exists can only ever raise (a selector filed under the
+    # wrong mode, or for the wrong id)
+    import pyubx2.ubxvariants as ubv
+    for mode_, tbl_ in ubv.VARIANTS.items():
+        for key_, fn_ in tbl_.items():
+            res.count()
+            if fn_ is ubv.get_mga_dict:
+                names = [n for k, n in UBX_MSGIDS.items() if len(k) == 3 and k[:2] == key_]
+                if not any(n in defs.TABLES[mode_] for n in names):
+                    res.finding(f"variant={defs.MODENAME[mode_]}:{key_.hex()};rule=dead-selector",
+                                f"VARIANTS[{defs.MODENAME[mode_]}][{key_.hex()}] is the MGA selector, but none of {names or 'no 3-byte ids'} "
+                                f"has a {defs.MODENAME[mode_]} definition: the entry can only raise",
+                                dict(mode=mode_, key=key_.hex(), names=names))
     # grammar (independent Python statement) and usability of every declared (message, mode)
     for ent in ctx.cat:
         nm = f"{defs.MODENAME[ent['mode']]}:{ent['name']}"
